@@ -88,8 +88,12 @@ func (en *engSet) answer(q Q) (snap string, objs []any) {
 	if q.Host {
 		res, ok := en.d.MatchRequest(mkDNSReq(q))
 		sb.WriteString("DNS " + snapDNS(res, ok))
-		c := en.e.GetCosmeticResult(q.Hostname, rules.CosmeticOptionAll)
-		fmt.Fprintf(&sb, " cosmetic=%q/%q", sortedList(c.ElementHiding.Generic), sortedList(c.ElementHiding.Specific))
+		opt := rules.CosmeticOptionAll
+		if q.CosmeticOpt != 0 {
+			opt = rules.CosmeticOption(q.CosmeticOpt) & rules.CosmeticOptionAll
+		}
+		c := en.e.GetCosmeticResult(q.Hostname, opt)
+		fmt.Fprintf(&sb, " cosmetic(%03b)=%q/%q", opt, sortedList(c.ElementHiding.Generic), sortedList(c.ElementHiding.Specific))
 		return sb.String(), []any{res, &c}
 	}
 	req := mkReq(q)
@@ -227,7 +231,11 @@ func genFieldToggleQueries(t *rapid.T) []Q {
 	var out []Q
 	for i := rapid.IntRange(2, 6).Draw(t, "ntoggles"); i > 0; i-- {
 		q := base
-		switch rapid.IntRange(0, 6).Draw(t, "toggle") {
+		switch rapid.IntRange(0, 7).Draw(t, "toggle") {
+		case 7:
+			// the same host asked with another cosmetic option
+			q.Hostname = pick(t, "chost", []string{"example.org", "sub.example.org", "a.com"})
+			q.CosmeticOpt = rapid.IntRange(1, 7).Draw(t, "copt")
 		case 6:
 			// matched by no rule itself; only the referrer matches (a document-level exception)
 			q = Q{URL: "http://nomatch.invalid/frame", Src: pick(t, "docsrc", []string{"http://a.com/", "http://b.net/"}), Typ: "subdocument"}
